@@ -192,13 +192,6 @@ theorem stack_errors_exact (env : Env) (h : Header) :
   · rw [hr, hl]; exact ⟨rfl, rfl, rfl⟩
   · rw [hr, hl]; exact ⟨by simp, rfl, rfl⟩
 
-theorem framingErrs_no_loop (h : Header) : Err.loop ∉ framingErrs h := by
-  unfold framingErrs framingHeader
-  cases hc : framingCL h with
-  | none => simp
-  | some h1 =>
-    rcases framingTE_err h1 with h0 | h0 <;> simp [h0]
-
 /-- Stack: every request in which no loop is seen — flagged by the framing modifier or not — is
 not skipped and carries exactly one `Via` line: the existing chain followed by this proxy's entry. -/
 theorem stack_via_exactly_one_appended_last (env : Env) (h : Header) (hok : Err.loop ∉ (stackReq env h).2) :
